@@ -77,13 +77,23 @@ def case_source(case, suffix):
     return case["src"].replace("@", suffix)
 
 
-def build_tu(cases, idxs):
+def build_tu(cases, idxs, linemap=None):
     parts = [PRELUDE]
+    nline = [PRELUDE.count("\n") + 1]
+
+    def add(text, k):
+        start = nline[0]
+        parts.append(text)
+        nline[0] += text.count("\n") + 1
+        if linemap is not None:
+            for ln in range(start, nline[0]):
+                linemap[ln] = k
+
     main = ["int main(void){", " signal(SIGFPE, vf_fpe); signal(SIGSEGV, vf_fpe); signal(SIGBUS, vf_fpe); signal(SIGILL, vf_fpe); signal(SIGTRAP, vf_fpe);"]
     for k in idxs:
         c = cases[k]
         suf = "_%d" % k
-        parts.append(case_source(c, suf))
+        add(case_source(c, suf), k)
         gl = [g.replace("@", suf) for g in c.get("globals", [])]
         rl = gl + [g.replace("@", suf) for g in c.get("restore", [])]  # restored before each call, not dumped
         ret = c["ret"]
@@ -92,7 +102,7 @@ def build_tu(cases, idxs):
         # one small driver function per case (keeps every C function small: gcc -O0 is super-linear in function size)
         body = []
         for g in rl:
-            parts.append("static unsigned char vf_sh_%s[sizeof(%s)];" % (g, g))
+            add("static unsigned char vf_sh_%s[sizeof(%s)];" % (g, g), k)
             main.append(" memcpy(vf_sh_%s, &%s, sizeof(%s));" % (g, g, g))
         restore = "".join(" memcpy(&%s, vf_sh_%s, sizeof(%s));" % (g, g, g) for g in rl)
         dump = "".join(' printf(" %s="); vf_hex(&%s, sizeof(%s));' % (g, g, g) for g in gl)
@@ -106,13 +116,13 @@ def build_tu(cases, idxs):
             call = "{ unsigned long long r=(unsigned long long)%s(%s); printf(\"R %d %%d %%llu\", vi, r); }" % (fname, args, k)
         else:
             call = "{ long long r=(long long)%s(%s); printf(\"R %d %%d %%lld\", vi, r); }" % (fname, args, k)
-        parts.append("static void vf_one_%d(int vi%s%s){ vf_ntrace=0;%s printf(\"B %d %%d\\n\", vi); fflush(stdout); if(!sigsetjmp(vf_jb,1)){ %s%s printf(\" T\"); vf_tr(); printf(\"\\n\"); } else printf(\"X %d %%d\\n\", vi); fflush(stdout); }"
-                     % (k, ", " if sig else "", sig, restore, k, call, dump, k))
+        add("static void vf_one_%d(int vi%s%s){ vf_ntrace=0;%s printf(\"B %d %%d\\n\", vi); fflush(stdout); if(!sigsetjmp(vf_jb,1)){ %s%s printf(\" T\"); vf_tr(); printf(\"\\n\"); } else printf(\"X %d %%d\\n\", vi); fflush(stdout); }"
+            % (k, ", " if sig else "", sig, restore, k, call, dump, k), k)
         calls = []
         for vi, vec in enumerate(c["vectors"]):
             a = ", ".join(literal(t, v) for t, v in zip(params, vec))
             calls.append(" vf_one_%d(%d%s%s);" % (k, vi, ", " if a else "", a))
-        parts.append("static void vf_case_%d(void){\n%s\n}" % (k, "\n".join(calls)))
+        add("static void vf_case_%d(void){\n%s\n}" % (k, "\n".join(calls)), k)
         main.append(" vf_case_%d();" % k)
     main.append(" return 0; }")
     return "\n".join(parts) + "\n" + "\n".join(main) + "\n"
@@ -121,12 +131,12 @@ def build_tu(cases, idxs):
 GCC_FLAGS = ["-O0", "-w", "-std=gnu11", "-fsanitize=undefined,float-cast-overflow,float-divide-by-zero", "-fsanitize-undefined-trap-on-error", "-ffp-contract=off", "-fwrapv-pointer"]
 
 
-def _compile_run(cases, idxs, d, tag):
+def _compile_run(cases, idxs, d, tag, extra_flags=(), linemap=None):
     src = os.path.join(d, "tu_%s.c" % tag)
     exe = os.path.join(d, "tu_%s.exe" % tag)
     with open(src, "w") as f:
-        f.write(build_tu(cases, idxs))
-    r = subprocess.run(["gcc"] + GCC_FLAGS + ["-o", exe, src], capture_output=True, text=True)
+        f.write(build_tu(cases, idxs, linemap))
+    r = subprocess.run(["gcc"] + GCC_FLAGS + list(extra_flags) + ["-fmax-errors=0", "-o", exe, src], capture_output=True, text=True)
     if r.returncode != 0:
         return None, r.stderr
     env = dict(os.environ, UBSAN_OPTIONS="print_stacktrace=0:halt_on_error=0")
@@ -181,7 +191,7 @@ def parse_output(text, cases):
     return res
 
 
-def run_cases(cases, d, batch=150, tag="b"):
+def run_cases(cases, d, batch=150, tag="b", extra_flags=()):
     """-> list aligned with cases: None (rejected by gcc) | {vi: outcome}"""
     out = [None] * len(cases)
     idx = list(range(len(cases)))
@@ -190,12 +200,23 @@ def run_cases(cases, d, batch=150, tag="b"):
         chunk = idx[s:s + batch]
         n += 1
         todo = [chunk]
+        rounds = 0
         while todo:
             part = todo.pop()
-            text, err = _compile_run(cases, part, d, "%s%d_%d" % (tag, n, len(todo)))
+            linemap = {}
+            rounds += 1
+            text, err = _compile_run(cases, part, d, "%s%d_%d" % (tag, n, rounds), extra_flags, linemap)
             if text is None:
-                if len(part) == 1:
-                    out[part[0]] = None
+                # attribute compile errors to cases by line number and retry without them
+                bad = set()
+                for m in re.finditer(r"\.c:(\d+):\d+: (?:fatal )?error", err):
+                    k = linemap.get(int(m.group(1)))
+                    if k is not None:
+                        bad.add(k)
+                if bad and len(bad) < len(part):
+                    todo.append([k for k in part if k not in bad])
+                    continue
+                if len(part) == 1 or (bad and len(bad) == len(part)):
                     continue
                 h = len(part) // 2
                 todo.append(part[:h])
